@@ -5,6 +5,7 @@ from ..index import AnalysisError, walk_own, walk_all, unparse, short, ancestors
 from ..cfg import cfg_of
 from .. import nf, lib
 from ..selftest import Mutant, Benign
+from ._c14_hunks import hunks
 
 ID = 'C16'
 CMP = 'mitxgraders/comparers/comparers.py'
@@ -68,6 +69,19 @@ def absent(r, idx, construct, detail, loc='', **kw):
         r.undecided(construct, detail + ' [not called a removal: helper(s) %s could not be inlined for review]' % ', '.join(left), loc)
     else:
         r.violation(construct, detail, loc, **kw)
+
+
+def self_contained(idx, fi, construct):
+    """The engine turns violations in a file with un-inlined new helpers into analysis-errors (the construct might have moved
+    into the helper).  When the judged function calls none of those helpers, its expression was understood completely and the
+    finding does not depend on them: say so in the construct (this is what report.py accepts as definite)."""
+    left = [q for q in (getattr(idx, 'unreviewed', None) or [])]
+    if not left:
+        return construct
+    called = {nf.callee_name(c) for c in walk_all(fi.node) if isinstance(c, ast.Call)}
+    if any(q.rsplit('.', 1)[-1] in called for q in left):
+        return construct
+    return '%s [self-contained: calls none of %s]' % (construct, ', '.join(left))
 
 
 def roles(fi, offset=0):
@@ -270,8 +284,34 @@ def kept_modes(idx, ci, fi, expr, all_modes):
     return kept
 
 
+def _const_truth(g):
+    """Truth of a guard that is decided by its shape alone (`{...} is not None`, `None is None`, ...), else None."""
+    if isinstance(g, ast.UnaryOp) and isinstance(g.op, ast.Not):
+        v = _const_truth(g.operand)
+        return None if v is None else not v
+    if isinstance(g, ast.Constant) and isinstance(g.value, bool):
+        return g.value
+    if isinstance(g, ast.Compare) and len(g.ops) == 1 and isinstance(g.ops[0], (ast.Is, ast.IsNot)):
+        a, b = g.left, g.comparators[0]
+        is_none = lambda x: isinstance(x, ast.Constant) and x.value is None
+        fresh = lambda x: isinstance(x, (ast.Dict, ast.List, ast.Tuple, ast.Set)) or (isinstance(x, ast.Constant) and x.value is not None)
+        if is_none(a) and is_none(b):
+            return isinstance(g.ops[0], ast.Is)
+        if (is_none(a) and fresh(b)) or (is_none(b) and fresh(a)):
+            return isinstance(g.ops[0], ast.IsNot)
+    return None
+
+
 def ret_paths(fi):
-    return nf.decision_paths(fi.node.body)
+    """Decision paths without the infeasible ones that appear when a helper returning `result or None` was inlined."""
+    out = []
+    for p in nf.decision_paths(fi.node.body):
+        truths = [_const_truth(g) for g in p.guards]
+        if any(t is False for t in truths):
+            continue
+        p.guards = [g for g, t in zip(p.guards, truths) if t is None]
+        out.append(p)
+    return out
 
 
 def is_zero_result(expr):
@@ -554,6 +594,44 @@ def d1_eigenvector(ctx, idx):
                 r.violation('eigenvector_comparer: operand order', 'the product is written `%s`: vector*matrix is v.M, the left-eigenvector '
                             'condition, which differs from M.v for non-symmetric matrices' % short(flipped[0]), where, expected='%s * %s' % (M, S),
                             found=short(flipped[0]))
+                continue
+            rb = nf.match('is_nearly_zero(_A - _B, _U.tolerance, reference=_R)', p.leaf.expr) or \
+                nf.match('is_nearly_zero(_A - _B, _U.tolerance)', p.leaf.expr)
+            if rb is not None:
+                # residual form: |M v - lambda v| <= tol, a percentage being relative to the reference
+                sides = []
+                for side in (rb['_A'], rb['_B']):
+                    sb = nf.match('_X * _S', side)
+                    sides.append(sb)
+                ok_sides = all(sb is not None for sb in sides) and \
+                    {getattr(sides[0]['_X'], 'id', getattr(sides[0]['_S'], 'id', None)), getattr(sides[1]['_X'], 'id', getattr(sides[1]['_S'], 'id', None))} <= {M, L, S}
+                names_a, names_b = lib.names_in(rb['_A']), lib.names_in(rb['_B'])
+                ok_sides = ok_sides and {frozenset(names_a), frozenset(names_b)} == {frozenset({M, S}), frozenset({L, S})}
+                if not ok_sides or not is_name(rb['_U'], U):
+                    r.undecided(construct, 'residual `%s` is not matrix*v - eigenvalue*v' % short(p.leaf.expr, 90), where)
+                    continue
+                r.ok(construct, 'is_nearly_zero(M*v - lambda*v, tolerance, ...)', where)
+                prods = [n for n in ast.walk(p.leaf.expr) if isinstance(n, ast.BinOp) and isinstance(n.op, ast.Mult)
+                         and mentions(n, M) and mentions(n, S)]
+                r.check(bool(prods) and all(is_name(n.left, M) for n in prods), 'eigenvector_comparer: operand order', 'matrix on the left',
+                        'the product is written with the vector on the left: v.M is the left-eigenvector condition', where,
+                        expected='%s * %s' % (M, S))
+                ref = rb.get('_R')
+                rconstruct = 'eigenvector_comparer: reference of the percentage tolerance'
+                if ref is None:
+                    r.violation(rconstruct, 'no reference is given: with a percentage tolerance is_nearly_zero raises ValueError instead of '
+                                'grading', where, expected='reference=%s * %s' % (M, S))
+                elif is_name(ref, S) or (nf.match('np.linalg.norm(_V)', ref) is not None and is_name(nf.match('np.linalg.norm(_V)', ref)['_V'], S)):
+                    r.violation(rconstruct, 'the residual M.v - lambda.v is measured relative to the submission `%s` itself instead of M.v '
+                                '(what within_tolerance(M.v, lambda.v) used): with a percentage tolerance the bound is tol*|v| instead of '
+                                'tol*|M.v|, so the verdict depends on the scale of the matrix (for a matrix with small entries every '
+                                'vector is accepted, for a large one true eigenvectors are rejected)' % short(ref), where,
+                                expected='reference=%s * %s' % (M, S), found='reference=%s' % short(ref))
+                elif frozenset(lib.names_in(ref)) in (frozenset({M, S}), frozenset({L, S})) and \
+                        (nf.match('_X * _S', ref) is not None or nf.match('np.linalg.norm(_X * _S)', ref) is not None):
+                    r.ok(rconstruct, 'relative to %s' % short(ref), where)
+                else:
+                    r.undecided(rconstruct, 'reference `%s` not recognised' % short(ref), where)
                 continue
             binds = {}
             res = nf.classify(['_U.within_tolerance(_X * _S, _Y * _S)'], p.leaf.expr, binds)
@@ -961,8 +1039,147 @@ def d1_entry(ctx, idx):
 
 
 # ----------------------------------------------------------------------------- D1 LinearComparer
+class _ZeroEval(object):
+    """Evaluates a predicate over the expected evaluations on an abstract collection: the set of zero patterns of its samples
+    ('A0' all entries zero, 'S0' some zero, 'N0' none zero)."""
+    def __init__(self, coll, pname, env=None):
+        self.coll = coll
+        self.pname = pname
+        self.env = env or {}
+
+    # values: ('coll', frozenset patterns) | ('samp', pattern) | ('bcoll', frozenset of AT/ST/AF) | ('bsamp', AT/ST/AF) | bool
+    def ev(self, e):
+        if isinstance(e, ast.Name):
+            if e.id in self.env:
+                return self.env[e.id]
+            if e.id == self.pname:
+                return ('coll', self.coll)
+            raise AnalysisError('name')
+        if isinstance(e, ast.Constant) and isinstance(e.value, bool):
+            return e.value
+        if isinstance(e, ast.UnaryOp) and isinstance(e.op, ast.Not):
+            v = self.ev(e.operand)
+            return not self.truth(v)
+        if isinstance(e, ast.BoolOp):
+            vals = [self.truth(self.ev(v)) for v in e.values]
+            return all(vals) if isinstance(e.op, ast.And) else any(vals)
+        if isinstance(e, ast.Subscript) and nf.const_value(e.slice) == 0:
+            v = self.ev(e.value)
+            if v[0] == 'samp':
+                return v            # params[0]: the expected evaluation of that sample
+            raise AnalysisError('subscript')
+        if isinstance(e, (ast.List, ast.Tuple)) and len(e.elts) == 1:
+            return self.ev(e.elts[0])
+        if isinstance(e, (ast.ListComp, ast.GeneratorExp)) and len(e.generators) == 1 and not e.generators[0].ifs:
+            g = e.generators[0]
+            it = self.ev(g.iter)
+            if it[0] != 'coll':
+                raise AnalysisError('iter')
+            out = set()
+            for pat in it[1]:
+                v = self.bind(g.target, ('samp', pat)).ev(e.elt)
+                if isinstance(v, tuple) and v[0] == 'samp':
+                    out.add(v[1])
+                else:
+                    raise AnalysisError('comprehension element')
+            return ('coll', frozenset(out))
+        if isinstance(e, ast.Compare) and len(e.ops) == 1 and isinstance(e.ops[0], (ast.Eq, ast.NotEq)):
+            l, r_ = e.left, e.comparators[0]
+            zero = lambda x: isinstance(x, ast.Constant) and not isinstance(x.value, bool) and x.value == 0
+            other = l if zero(r_) else r_ if zero(l) else None
+            if other is None:
+                raise AnalysisError('compare')
+            v = self.ev(other)
+            if v is True or v is False:
+                raise AnalysisError('compare bool')
+            m = {'A0': 'AT', 'S0': 'ST', 'N0': 'AF'} if isinstance(e.ops[0], ast.Eq) else {'A0': 'AF', 'S0': 'ST', 'N0': 'AT'}
+            if v[0] == 'samp':
+                return ('bsamp', m[v[1]])
+            if v[0] == 'coll':
+                return ('bcoll', frozenset(m[p] for p in v[1]))
+            if v[0] == 'count':
+                return (v[1] == 0) == isinstance(e.ops[0], ast.Eq)
+            raise AnalysisError('compare')
+        if isinstance(e, ast.Call):
+            name = nf.callee_name(e)
+            if name in ('all', 'any') and len(e.args) == 1:
+                arg = e.args[0]
+                numpy_form = isinstance(e.func, ast.Attribute)
+                if not numpy_form and isinstance(arg, (ast.ListComp, ast.GeneratorExp)) and len(arg.generators) == 1 and not arg.generators[0].ifs:
+                    g = arg.generators[0]
+                    it = self.ev(g.iter)
+                    if it[0] != 'coll':
+                        raise AnalysisError('iter')
+                    vals = [self.truth(self.bind(g.target, ('samp', pat)).ev(arg.elt)) for pat in sorted(it[1])]
+                    return all(vals) if name == 'all' else any(vals)
+                v = self.ev(arg)
+                return self.reduce(name, v)
+            if name == 'count_nonzero' and len(e.args) == 1:
+                v = self.ev(e.args[0])
+                nz = self.reduce('any', v)
+                return ('count', 1 if nz else 0)
+            if name in ('array', 'asarray', 'list', 'tuple', 'flatten', 'ravel') and (len(e.args) == 1 or (not e.args and isinstance(e.func, ast.Attribute))):
+                return self.ev(e.args[0] if e.args else e.func.value)
+            if name in ('abs', 'absolute') and len(e.args) == 1:
+                return self.ev(e.args[0])
+        raise AnalysisError('unsupported')
+
+    def bind(self, target, value):
+        env = dict(self.env)
+        if isinstance(target, ast.Name):
+            env[target.id] = value
+        elif isinstance(target, (ast.List, ast.Tuple)) and len(target.elts) == 1 and isinstance(target.elts[0], ast.Name):
+            env[target.elts[0].id] = value
+        else:
+            raise AnalysisError('target')
+        return _ZeroEval(self.coll, self.pname, env)
+
+    @staticmethod
+    def reduce(name, v):
+        """np.all / np.any / all / any of a whole array-like value."""
+        if v is True or v is False:
+            return v
+        kind, x = v
+        if kind == 'samp':
+            return (x == 'N0') if name == 'all' else (x != 'A0')
+        if kind == 'bsamp':
+            return (x == 'AT') if name == 'all' else (x != 'AF')
+        if kind == 'coll':
+            return (x == frozenset(['N0'])) if name == 'all' else (x != frozenset(['A0']))
+        if kind == 'bcoll':
+            return (x == frozenset(['AT'])) if name == 'all' else (x != frozenset(['AF']))
+        if kind == 'count':
+            return x != 0
+        raise AnalysisError('reduce')
+
+    def truth(self, v):
+        if v is True or v is False:
+            return v
+        if isinstance(v, tuple) and v[0] == 'count':
+            return v[1] != 0
+        raise AnalysisError('truth value of an array')
+
+
+def zero_predicate_table(expr, pname):
+    """[(pattern set, truth)] of a predicate over the expected evaluations for the 7 non-empty sets of sample patterns; None
+    when the expression is outside the evaluator."""
+    import itertools
+    pats = ['A0', 'S0', 'N0']
+    table = []
+    for k in (1, 2, 3):
+        for combo in itertools.combinations(pats, k):
+            coll = frozenset(combo)
+            try:
+                v = _ZeroEval(coll, pname).ev(expr)
+                v = _ZeroEval(coll, pname).truth(v)
+            except AnalysisError:
+                return None
+            table.append((coll, v))
+    return table
+
+
 def d1_linear(ctx, idx):
-    r = ctx.rule('D1.LINEAR', 'LinearComparer: sample floor, zero-compatible modes, estimator table, zero detection, best configured credit', floor=16)
+    r = ctx.rule('D1.LINEAR', 'LinearComparer: sample floor, zero-compatible modes, estimator table, zero detection, best configured credit', floor=17)
     with r:
         ci = idx.cls(LC)
         call = idx.func(LC + '.__call__')
@@ -1063,7 +1280,7 @@ def d1_linear(ctx, idx):
                     r.undecided(construct, 'return `%s` not recognised' % short(p.leaf.expr), where)
             else:
                 r.undecided('LinearComparer.get_valid_modes', 'path without a test of %s' % flagp, where)
-        # (d) check_comparing_zero
+        # (d) check_comparing_zero = (student nearly zero in every sample) or (expected exactly zero everywhere)
         cz = idx.func(LC + '.check_comparing_zero')
         zp, zs, zt = cz.params[0], cz.params[1], cz.params[2]
         zpaths = [p for p in ret_paths(cz) if p.leaf.kind == 'ret']
@@ -1071,20 +1288,54 @@ def d1_linear(ctx, idx):
             raise AnalysisError('check_comparing_zero: expected one returning path')
         ze = zpaths[0].leaf.expr
         where = lib.loc(cz, zpaths[0].leaf.stmt)
-        binds = {}
-        res = nf.classify(['all([is_nearly_zero(_X, _T, reference=_Y) for _X, _Y in zip(_S, _P)]) or all((np.all(_Z == 0.0) for [_Z] in _P))',
-                           'all((is_nearly_zero(_X, _T, reference=_Y) for _X, _Y in zip(_S, _P))) or all((np.all(_Z == 0.0) for [_Z] in _P))',
-                           'all([is_nearly_zero(_X, _T, reference=_Y) for _X, _Y in zip(_S, _P)]) or all([np.all(_Z == 0.0) for [_Z] in _P])'],
-                          ze, binds)
-        if res == nf.MATCH:
-            good = is_name(binds['_S'], zs) and is_name(binds['_P'], zp) and is_name(binds['_T'], zt)
-            r.check(good, 'LinearComparer.check_comparing_zero', 'student nearly zero in every sample, or expected exactly zero in every sample',
-                    'the zero test runs over `%s`/`%s` instead of (student, expected)' % (short(binds['_S']), short(binds['_P'])), where)
-        elif isinstance(res, tuple):
-            r.violation('LinearComparer.check_comparing_zero', '%s: zero on one side is no longer detected, so a proportional/linear fit '
-                        'against zero (which always succeeds) earns credit' % res[1], where, found=short(ze, 100))
+        construct = self_contained(idx, cz, 'LinearComparer.check_comparing_zero')
+        parts = nf.disjuncts(ze)
+        spart = [d for d in parts if mentions(d, zs)]
+        epart = [d for d in parts if not mentions(d, zs) and mentions(d, zp)]
+        if isinstance(ze, ast.BoolOp) and isinstance(ze.op, ast.And) and len(ze.values) == 2 and any(mentions(v, zs) for v in ze.values):
+            r.violation(construct, '`and` instead of `or`: zero is only assumed when BOTH sides are zero, so a proportional/linear fit against '
+                        'an exactly-zero expected answer (which always succeeds) earns credit', where, found=short(ze, 100))
+        elif len(spart) != 1 or len(epart) != 1 or len(parts) != 2:
+            r.undecided(construct, 'expression `%s` is not (student part) or (expected part)' % short(ze, 100), where)
         else:
-            r.undecided('LinearComparer.check_comparing_zero', 'expression `%s` not recognised' % short(ze, 100), where)
+            # student part
+            sp = spart[0]
+            sb = None
+            for pat in ('all([is_nearly_zero(_X, _T, reference=_Y) for _X, _Y in zip(_S, _E)])',
+                        'all((is_nearly_zero(_X, _T, reference=_Y) for _X, _Y in zip(_S, _E)))'):
+                sb = sb or nf.match(pat, sp)
+            anyb = None
+            for pat in ('any([is_nearly_zero(_X, _T, reference=_Y) for _X, _Y in zip(_S, _E)])',
+                        'any((is_nearly_zero(_X, _T, reference=_Y) for _X, _Y in zip(_S, _E)))'):
+                anyb = anyb or nf.match(pat, sp)
+            if sb is not None and is_name(sb['_S'], zs) and is_name(sb['_T'], zt) and mentions(sb['_E'], zp) and not mentions(sb['_E'], zs):
+                r.ok(construct + ': student side', 'nearly zero in every sample (relative to the expected value)', where)
+            elif anyb is not None:
+                r.violation(construct + ': student side', '`any` instead of `all`: one nearly-zero sample of the student is enough to drop the '
+                            'proportional/linear relations for all samples', where, found=short(sp, 90))
+            elif sb is not None:
+                r.violation(construct + ': student side', 'the near-zero test runs over `%s`/`%s` instead of (student, expected)'
+                            % (short(sb['_S']), short(sb['_E'])), where)
+            else:
+                r.undecided(construct + ': student side', 'expression `%s` not recognised' % short(sp, 90), where)
+            # expected part: decided over the zero patterns of the expected evaluations
+            verdict = zero_predicate_table(epart[0], zp)
+            if verdict is None:
+                r.undecided(construct + ': expected side', 'expression `%s` is outside the zero-pattern evaluator' % short(epart[0], 90), where)
+            else:
+                bad = [(cls, got) for cls, got in verdict if got != (cls == frozenset(['A0']))]
+                if not bad:
+                    r.ok(construct + ': expected side', 'true exactly when every entry of every expected evaluation is zero (decided over '
+                         'the 7 zero patterns)', where)
+                else:
+                    cls, got = bad[0]
+                    words = {'A0': 'an evaluation that is entirely zero', 'S0': 'an evaluation with some zero and some nonzero entries',
+                             'N0': 'an evaluation without zero entries'}
+                    r.violation(construct + ': expected side', 'the test `%s` for "the author\'s answer is exactly zero" is %s when the expected '
+                                'evaluations consist of %s (e.g. an answer like [x, 0, 2*y]): it should hold only when every entry is zero '
+                                '(wrong any/all dual); the proportional and linear relations are then dropped (or kept) for the wrong answers'
+                                % (short(epart[0], 60), got, ' and '.join(words[c] for c in sorted(cls))), where,
+                                expected='not np.any(expected) / all(np.all(x == 0) for x in expected)', found=short(epart[0], 80))
         # (e) the result: credit iff the fit error is nearly zero, best by (credit, message)
         finals = [p for p in ret_paths(call) if p.leaf.kind == 'ret']
         if not finals:
@@ -2206,6 +2457,11 @@ MUTANTS = [
            "        if not is_comparing_zero:\n            return self.modes\n        nonzero_only_modes = set(self.all_modes) - set(self.zero_compatible_modes)\n        return tuple(mode for mode in self.modes\n                     if mode in nonzero_only_modes)", 'D1'),
     Mutant('entry-conditional-credit-branches-exchanged', CMP, "        elif partial_credit == 'proportional':\n            return {'ok': 'partial', 'grade_decimal': percent_correct, 'msg': msg}\n        else:\n            return {'ok': 'partial', 'grade_decimal': partial_credit, 'msg': msg}",
            "        awarded = partial_credit if partial_credit == 'proportional' else percent_correct\n        return {'ok': 'partial', 'grade_decimal': awarded, 'msg': msg}", 'D1'),
+    # wave 5: refactorings with one slip (the filed diff is the mutant, the corrected diff is the benign twin below)
+    Mutant('seeded-C16i-expected-zero-wrong-dual', LIN, hunks('C16i', LIN), None, 'D1'),
+    Mutant('seeded-C16j-eigen-residual-relative-to-v', CMP, hunks('C16j', CMP), None, 'D1'),
+    Mutant('linear-expected-zero-any-entry', LIN, "        expected_zero = all(np.all(x == 0.0) for [x] in comparer_params_evals)",
+           "        expected_zero = any(np.any(x == 0.0) for [x] in comparer_params_evals)", 'D1'),
     Mutant('linear-validation-removed', LIN, "            utils.validate_shape(student_evals[0], shape)", "            pass", 'D2'),
     Mutant('nearly-zero-strict', MF, "    return np.linalg.norm(x) <= tolerance", "    return np.linalg.norm(x) < tolerance", 'D1'),
     Mutant('nearly-zero-relative-to-itself', MF, "        tolerance = np.linalg.norm(reference) * percentage_as_number(tolerance)",
@@ -2332,5 +2588,12 @@ BENIGN = [
            "        awarded = percent_correct if partial_credit == 'proportional' else partial_credit\n        return {'ok': 'partial', 'grade_decimal': awarded, 'msg': msg}"),
     Benign('linear-zero-filter-by-set-difference', LIN, "        if is_comparing_zero:\n            return tuple(mode for mode in self.modes\n                         if mode in self.zero_compatible_modes)\n        return self.modes",
            "        if not is_comparing_zero:\n            return self.modes\n        nonzero_only_modes = set(self.all_modes) - set(self.zero_compatible_modes)\n        return tuple(mode for mode in self.modes\n                     if mode not in nonzero_only_modes)"),
+    Benign('C16i-corrected-linear-refactoring', LIN, hunks('C16i', LIN, fixes=[
+        ("        expected_zero = not np.all(expected_evals)\n", "        expected_zero = not np.any(expected_evals)\n")]), None),
+    Benign('C16j-corrected-eigen-residual-form', CMP, hunks('C16j', CMP, fixes=[
+        ("    return is_nearly_zero(residual, utils.tolerance, reference=student_eval)\n",
+         "    return is_nearly_zero(residual, utils.tolerance, reference=matrix * student_eval)\n")]), None),
+    Benign('linear-expected-zero-by-count-nonzero', LIN, "        expected_zero = all(np.all(x == 0.0) for [x] in comparer_params_evals)",
+           "        expected_zero = np.count_nonzero([params[0] for params in comparer_params_evals]) == 0"),
     Benign('eigen-log-statement', CMP, "    expected = eigenvalue * student_eval\n    actual = matrix * student_eval\n", "    expected = eigenvalue * student_eval\n    actual = matrix * student_eval\n    _unused = len(comparer_params_eval)\n"),
 ]
